@@ -49,7 +49,7 @@ import numpy as np
 from diffprivlib.accountant import BudgetAccountant
 from diffprivlib.mechanisms import LaplaceBoundedDomain, GeometricTruncated, LaplaceTruncated
 from diffprivlib.utils import PrivacyLeakWarning, warn_unused_args, check_random_state, Budget, BudgetError
-from diffprivlib.validation import check_bounds, clip_to_bounds
+from diffprivlib.validation import check_bounds, check_epsilon_delta, clip_to_bounds
 
 _sum_ = sum
 
@@ -59,9 +59,10 @@ def _check_cells(accountant, epsilon, cell_epsilon, n_cells):
     whole, so that it cannot be refused part-way with some of its cells already charged.
     """
     accountant = BudgetAccountant.load_default(accountant)
-    accountant.check(epsilon, 0)
+    check_epsilon_delta(epsilon, 0)
 
-    # The rounded sum of the per-cell spends can exceed epsilon by an ulp, so check exactly what will be spent
+    # Check exactly what will be spent: the rounded sum of the per-cell spends can differ from epsilon by an ulp, so a
+    # check of epsilon as a single spend could disagree with the cells' own checks (in either direction)
     total = accountant.total(spent_budget=accountant.spent_budget + [(cell_epsilon, 0)] * n_cells)
     if not Budget(accountant.epsilon, accountant.delta) >= total:
         raise BudgetError(f"Privacy spend of ({epsilon},0) not permissible; will exceed remaining privacy budget.")
